@@ -11,21 +11,31 @@ import "github.com/gobuffalo/plush/v5/helpers/hctx"
 // than or equal to `size`, `trail` will be returned
 // completely as is. Defaults to a `trail` of `...`.
 func Truncate(s string, opts hctx.Map) string {
-	if opts["size"] == nil {
-		opts["size"] = 50
+	size, ok := opts["size"].(int)
+	if !ok {
+		size = 50
 	}
-	if opts["trail"] == nil {
-		opts["trail"] = "..."
+	trail, ok := opts["trail"].(string)
+	if !ok {
+		trail = "..."
 	}
 	runesS := []rune(s)
-	size := opts["size"].(int)
 	if len(runesS) <= size {
 		return s
 	}
-	trail := opts["trail"].(string)
 	runesTrail := []rune(trail)
 	if len(runesTrail) >= size {
 		return trail
 	}
-	return string(runesS[:size-len(runesTrail)]) + trail
+	// keep the first size-len(runesTrail) characters of s, cutting the
+	// original bytes at a character boundary
+	keep := size - len(runesTrail)
+	n := 0
+	for i := range s {
+		if n == keep {
+			return s[:i] + trail
+		}
+		n++
+	}
+	return s
 }
